@@ -24,6 +24,11 @@ def main():
             claimed[pid] = json.load(open(p))
     na_path = os.path.join(CDIR, "not_applicable.json")
     na = json.load(open(na_path)) if os.path.exists(na_path) else {}
+    kf = json.load(open(os.path.join(VERIF, "known_findings.json")))
+    fixed = {}
+    for f in kf.get("findings", []):
+        if f.get("status") == "fixed":
+            fixed.setdefault(f["property"], []).append(f"{f['id']} ({f.get('commit')})")
     checks = []
     for pid in ALL:
         if pid not in claimed:
@@ -32,6 +37,10 @@ def main():
         note = c["note"]
         if not note.startswith("Trusted:"):
             note = BASE_NOTE + note
+        if pid in fixed:
+            note += (" Findings of this property repaired by fix: commits in /repo: " + ", ".join(fixed[pid]) +
+                     " (DESIGN.md section 6); where the text above speaks of a patch or a patched tree, that "
+                     "repair is now part of /repo and the evidence comes from /repo itself.")
         checks.append({
             "property_id": pid,
             "quick_cmd": f"./check {pid} quick",
